@@ -403,6 +403,32 @@
   (ev/sleep 0.01)
   (print total " " head " " (string/format "%j" (sorted out))))
 
+(defscenario stream-read-in-try-no-buffer
+  # the result buffer of a pending read is allocated by the read itself and referenced only from the operation's state;
+  # the reading call sits inside a nested fiber (try), so the task's root fiber has a child while it waits
+  (def [r w] (os/pipe))
+  (def out @[])
+  (ev/go (fn [] (array/push out (try (ev/read r 40) ([e] [:err e])))
+           (array/push out (try (ev/chunk r 20) ([e] [:err e])))))
+  (ev/sleep 0)
+  (window (churn))
+  (ev/write w (string/repeat "A" 25))
+  (ev/sleep 0)
+  (window (churn))
+  (ev/write w (string/repeat "B" 35))
+  (ev/sleep 0)
+  (ev/close w)
+  (ev/sleep 0)
+  (print (string/format "%j" out))
+  (ev/close r))
+
+(defscenario compile-missing-symbol-handler
+  # the :missing-symbol handler runs Janet code (and collections) in the middle of a compilation
+  (def env (make-env))
+  (put env :missing-symbol (fn [sym] (churn 1) @{:value (fresh-str (string sym))}))
+  (def r (window (compile '(tuple unknown-one (string unknown-two "!") [unknown-three unknown-one]) env)))
+  (print (string/format "%j" (if (function? r) (r) r))))
+
 (defscenario stream-only-ref-from-fiber
   (def wr (do (def [r w] (os/pipe)) (ev/go (fn [] (print (ev/read r 16)) (ev/close r))) w))
   (ev/sleep 0)
